@@ -54,6 +54,8 @@ def kinds(line):
 def compare(case, impl_line):
     """None when the implementation's line agrees with the reference semantics (or the
     session is not a usable specification); otherwise 'kind: message'"""
+    if impl_line.startswith("NOTRUN"):
+        return None       # not executed: an earlier case of the same shard hung (reported there)
     if impl_line == "PANIC" or impl_line.startswith(("ABORT", "TIMEOUT")) or " PANIC" in impl_line:
         return "panic: the implementation panicked or hung (%s)" % impl_line[:120]
     st, exp = expected(case)[:2]
@@ -583,13 +585,15 @@ def _delete(d, path):
     return _replace(d, path[:-1], R.py_to_list(items, tail))
 
 
-def reductions(case):
+def plain_reductions(case, per_form=None):
+    """structurally smaller sessions: drop a form, drop a datum, hoist a subterm over its
+    parent, delete a list element, replace a compound subterm by 0"""
     forms = G.decode(case)
     n = len(forms)
-    # drop a whole form
+    out = []
     if n > 1:
         for i in range(n):
-            yield G.encode(forms[:i] + forms[i + 1:], case[0])
+            out.append(forms[:i] + forms[i + 1:])
     for fi, f in enumerate(forms):
         try:
             data = R.read_all(f)
@@ -598,26 +602,70 @@ def reductions(case):
         if len(data) > 1:
             for j in range(len(data)):
                 nf = " ".join(R.show(x) for k, x in enumerate(data) if k != j)
-                yield G.encode(forms[:fi] + [nf] + forms[fi + 1:], case[0])
+                out.append(forms[:fi] + [nf] + forms[fi + 1:])
         cands = []
         for j, d in enumerate(data):
-            ps = sorted(_subterm_variants(d), key=len)
-            for p in ps:
+            for p in sorted(_subterm_variants(d), key=len):
                 sub = _get(d, p)
-                # hoist the subterm over its parent; delete it from its list; replace by a constant
-                if len(p) >= 1:
-                    cands.append((j, _replace(d, p[:-1], sub)))
-                    if p[-1] > 0:
-                        cands.append((j, _delete(d, p)))
+                cands.append((j, _replace(d, p[:-1], sub)))
+                if p[-1] > 0:
+                    cands.append((j, _delete(d, p)))
                 if type(sub) is Pair:
                     cands.append((j, _replace(d, p, 0)))
-        for j, nd in cands[:40]:
+        if per_form:
+            cands = cands[:per_form]
+        for j, nd in cands:
             try:
                 nf = " ".join(R.show(x if k != j else nd) for k, x in enumerate(data))
-            except R.Limit:
+            except (R.Limit, R.Unspecified):
                 continue
             if nf != f:
-                yield G.encode(forms[:fi] + [nf] + forms[fi + 1:], case[0])
+                out.append(forms[:fi] + [nf] + forms[fi + 1:])
+    seen = set()
+    res = []
+    for fs in out:
+        key = tuple(fs)
+        if key not in seen:
+            seen.add(key)
+            res.append(G.encode(fs, case[0]))
+    return res
+
+
+def reductions(case):
+    """candidates for the runner's shrinking.  When the case fails the oracle, the module
+    first minimises it itself (same failure kind, still outside the recorded classes,
+    smallest candidates first) and offers the result; the runner re-checks it."""
+    import common as C
+    exe = os.path.join(C.HARNESS, "target", "debug", "mwh")
+    cur = case
+    if os.path.exists(exe):
+        try:
+            il = C.run_impl(exe, [case])[0]
+            msg = compare(case, il)
+            if msg is not None and known_class(case, il, None) is None:
+                kind = msg.split(":")[0]
+                import time
+                t_end = time.time() + 45
+                while time.time() < t_end:
+                    cands = sorted(plain_reductions(cur), key=len)[:200]
+                    if not cands:
+                        break
+                    lines = C.run_impl(exe, cands)
+                    found = None
+                    for c, l in zip(cands, lines):
+                        m = compare(c, l)
+                        if m is not None and m.split(":")[0] == kind and known_class(c, l, None) is None:
+                            found = c
+                            break
+                    if found is None:
+                        break
+                    cur = found
+        except Exception:
+            cur = case
+    if cur != case:
+        yield cur
+    for c in plain_reductions(cur, per_form=40)[:63]:
+        yield c
 
 
 def describe(case):
